@@ -577,6 +577,8 @@ func (ci *crdIpam) AllocateInSubnetsAndIPRange(key string, nodeSubnet *net.IPNet
 				}
 				if err := ci.deleteFloatingIP(allocatedIPStrs[j]); err != nil {
 					glog.Errorf("failed to delete floatingIP %s: %v", allocatedIPStrs[j], err)
+					// the object stays in the store, keep the cache in line with it: the ip stays allocated to key
+					ci.syncCacheAfterCreate(allocatedFips[j])
 				}
 			}
 			return nil, err
